@@ -50,11 +50,15 @@ ASSUMPTIONS = [
     'get_and_clear_sel_entry: any finite fault set, the model given more rounds than the last fault position',
     'the BMC is a fixed script (answers depend on the request only); a faulted answer is the bare code '
     '(sampled: code followed by the OK payload)',
-    'SDR reads: the scripted BMC grants ONE reservation id for ever, so a renewal after C5h returns the id the operation '
-    'already holds; whether the id obtained by get_sdr_chunk_helper is handed on to the following chunks / records '
-    '(C13:data_helper:stale-reservation-after-renewal, fixes/C13-2) cannot show here: sdrData / sdrEntries carry one '
-    'reservation id through a record / a listing and produce the requests of either variant (compared field by field, '
-    'reservation included); which id a request carries is C13\'s clause, judged by C13 and mirrored by C11',
+    'SDR reads: the scripted BMC grants ONE reservation id for ever and the models sdrData / sdrEntries carry one reservation '
+    'id through a record / a listing (the SDR theorems assume a caller-supplied reservation to be that id: hgiven).  Whether '
+    'the id obtained by get_sdr_chunk_helper after C5h is handed on to the following chunks / records '
+    '(C13:data_helper:stale-reservation-after-renewal, fixes/C13-2) shows only when the caller supplies a FOREIGN id: those '
+    'reads are compared on every fault script without C5h, and the scripts with C5h are run with the id the BMC grants, where '
+    'both variants issue the same requests (compared field by field, reservation included); which id a request carries after a '
+    'renewal is C13\'s clause, judged by C13 and mirrored by the C11 model (Variant.staleRes).  The chunk readers\' '
+    '`except CompletionCodeError as e: e.reservation_id = …; raise` is read by the translator as what it is: the same error '
+    'propagating (no handler kind, no continuation)',
     'HPM.1 long duration commands: the outcome of a command answered 80h is what the script\'s Get Upgrade Status says '
     '(last completion code 00h / 80h for ever / 82h, one device variant each); a long duration command that ends '
     'after n polls is C18\'s reference device, not this one; interface time-outs during polling are not injected',
